@@ -310,10 +310,12 @@ Proof.
   cbn [closed_state s_closed s_active oa]. rewrite cb_map_Some, app_nil_r. exact H.
 Qed.
 
-(* every operation except the re-opening of a closed storage *)
-Lemma step_good s o : (forall l, o = OOpen l -> s_open s = true) -> good s (fst (step K cfg s o)).
+(* every operation of the storage except the re-opening of a closed storage (crash damage between two sessions, OCut,
+   is not an operation of the storage: on an open storage it is the no-op) *)
+Lemma step_good s o : (forall l, o = OOpen l -> s_open s = true) -> (forall id k, o = OCut id k -> s_open s = true) ->
+  good s (fst (step K cfg s o)).
 Proof.
-  intros HO. unfold step. destruct (needs_open o && negb (s_open s)); [apply good_refl|].
+  intros HO HC. unfold step. destruct (needs_open o && negb (s_open s)); [apply good_refl|].
   destruct o; try exact (good_refl s). (* also OSleep: `good` only looks at the blobs and at s_next *)
   - apply good_do_write.
   - apply good_do_delete.
@@ -338,18 +340,20 @@ Proof.
   - rewrite (HO lazy eq_refl). cbn [fst]. apply good_refl.
   - cbn [fst]. apply good_upd_closed. rewrite cb_map_opt. apply F2_map.
     intros b. destruct (b_id b =? id); [apply bext_same; reflexivity|apply bext_refl].
+  - cbn [fst]. unfold do_cut. rewrite (HC id keep eq_refl). apply good_refl.
 Qed.
 
-(* re-opening: every file is read back, whatever the order of the ids *)
-Lemma do_open_lext files c lazy f2 : lext files (blobs_in_order (do_open K files c lazy f2)).
+(* re-opening: every readable file is read back, whatever the order of the ids *)
+Lemma do_open_lext files bad quar c lazy f2 :
+  lext (good_files bad files) (blobs_in_order (do_open K files bad quar c lazy f2)).
 Proof.
   destruct files as [|f0 fs] eqn:EF; [intros b []|].
   rewrite <- EF. assert (Hne : files <> []) by (rewrite EF; discriminate). clear EF f0 fs.
   rewrite do_open_nonempty by exact Hne.
   intros b Hb.
-  assert (HB : In (blob_from_file K b) (sort_by_id (map (blob_from_file K) files))).
+  assert (HB : In (blob_from_file K b) (sort_by_id (map (blob_from_file K) (good_files bad files)))).
   { apply in_sort_by_id, in_map, Hb. }
-  set (blobs := sort_by_id (map (blob_from_file K) files)) in *. clearbody blobs. cbv zeta.
+  set (blobs := sort_by_id (map (blob_from_file K) (good_files bad files))) in *. clearbody blobs. cbv zeta.
   destruct lazy.
   - rewrite bio_eq. cbn [s_closed s_active oa]. rewrite cb_map_some_f, app_nil_r.
     exists (blob_dump K (blob_from_file K b)). split; [apply in_map, HB|].
@@ -365,28 +369,33 @@ Proof.
         apply (bext_trans _ _ _ (bext_from_file b) (bext_load_index _)).
 Qed.
 
+(* `is_cut o = false`, `s_bad s = []`: the statement is about what the STORAGE does to the blobs. A crash may cut a blob
+   file (OCut), and a file it made unreadable is moved to the corrupted directory by the next open -- renamed, not
+   modified, but no longer a blob of the storage (CrashProofs.cut_inside_quarantines). *)
 Lemma step_lext s o :
-  NoActiveWhenClosed s -> lext (blobs_in_order s) (blobs_in_order (fst (step K cfg s o))).
+  NoActiveWhenClosed s -> is_cut o = false -> s_bad s = [] ->
+  lext (blobs_in_order s) (blobs_in_order (fst (step K cfg s o))).
 Proof.
-  intros HN. destruct (s_open s) eqn:EO.
-  - apply step_good. intros l _. exact EO.
-  - destruct o; try (apply step_good; intros l E; discriminate E).
+  intros HN Hc HB. destruct (s_open s) eqn:EO.
+  - apply step_good; intros; exact EO.
+  - destruct o; try discriminate Hc; try (apply step_good; intros; discriminate).
     unfold step. cbn [needs_open andb]. rewrite EO. cbn [fst].
     rewrite (bio_eq s), (HN EO). cbn [oa]. rewrite app_nil_r, <- closed_blobs_cb.
-    apply do_open_lext.
+    rewrite <- (good_files_nil (closed_blobs s)) at 1. rewrite HB. apply do_open_lext.
 Qed.
 
 Lemma step_q_lext s o :
-  NoActiveWhenClosed s -> lext (blobs_in_order s) (blobs_in_order (fst (step_q K cfg s o))).
+  NoActiveWhenClosed s -> is_cut o = false -> s_bad s = [] ->
+  lext (blobs_in_order s) (blobs_in_order (fst (step_q K cfg s o))).
 Proof.
-  intros HN. unfold step_q. pose proof (step_lext s o HN) as H1.
+  intros HN Hc HB. unfold step_q. pose proof (step_lext s o HN Hc HB) as H1.
   destruct (step K cfg s o) as [s' r]. cbn [fst] in *.
   apply (lext_trans _ _ _ H1). apply (good_quiesce s').
 Qed.
 
 Lemma step_q_good s o : s_open s = true -> good s (fst (step_q K cfg s o)).
 Proof.
-  intros EO. unfold step_q. assert (H1 : good s (fst (step K cfg s o))) by (apply step_good; intros l _; exact EO).
+  intros EO. unfold step_q. assert (H1 : good s (fst (step K cfg s o))) by (apply step_good; intros; exact EO).
   destruct (step K cfg s o) as [s' r]. cbn [fst] in *.
   apply (good_trans _ _ _ H1), good_quiesce.
 Qed.
@@ -397,14 +406,93 @@ Proof.
   destruct (step K cfg s o) as [s' r]. cbn [fst] in *. apply quiesce_NoActiveWhenClosed, H1.
 Qed.
 
+(* a history without crash damage *)
+Definition no_cut (ops : list op) : Prop := forall o, In o ops -> is_cut o = false.
+
 Lemma run_lext ops : forall s,
-  NoActiveWhenClosed s -> lext (blobs_in_order s) (blobs_in_order (fst (run K cfg s ops))).
+  NoActiveWhenClosed s -> no_cut ops -> s_bad s = [] ->
+  lext (blobs_in_order s) (blobs_in_order (fst (run K cfg s ops))).
 Proof.
-  induction ops as [|o ops IH]; intros s HN; cbn [run]; [apply lext_refl|].
-  pose proof (step_q_lext s o HN) as H1. pose proof (step_q_NoActiveWhenClosed s o HN) as H2.
+  induction ops as [|o ops IH]; intros s HN Hc HB; cbn [run]; [apply lext_refl|].
+  assert (Hco : is_cut o = false) by (apply Hc; left; reflexivity).
+  assert (Hcr : no_cut ops) by (intros x Hx; apply Hc; right; exact Hx).
+  pose proof (step_q_lext s o HN Hco HB) as H1. pose proof (step_q_NoActiveWhenClosed s o HN) as H2.
+  pose proof (bad_step_q K cfg s o Hco HB) as H3.
   destruct (step_q K cfg s o) as [s' x]. cbn [fst] in *.
-  specialize (IH s' H2). destruct (run K cfg s' ops) as [s'' xs]. cbn [fst] in *.
+  specialize (IH s' H2 Hcr H3). destruct (run K cfg s' ops) as [s'' xs]. cbn [fst] in *.
   apply (lext_trans _ _ _ H1 IH).
+Qed.
+
+(* ---------- with crash damage: the blobs a crash did not touch ---------- *)
+(* the blob files a history's crashes damaged *)
+Definition cut_ids (ops : list op) : list N := flat_map (fun o => match o with OCut id _ => [id] | _ => [] end) ops.
+
+Lemma cut_ids_cons o ops : cut_ids (o :: ops) = cut_ids [o] ++ cut_ids ops.
+Proof. unfold cut_ids. cbn [flat_map]. rewrite app_nil_r. reflexivity. Qed.
+
+Lemma no_cut_ids ops : no_cut ops -> cut_ids ops = [].
+Proof.
+  induction ops as [|o ops IH]; intros H; [reflexivity|]. rewrite cut_ids_cons, IH by (intros x Hx; apply H; right; exact Hx).
+  specialize (H o (or_introl eq_refl)). destruct o; try discriminate H; reflexivity.
+Qed.
+
+Lemma step_lext_uncut s o b :
+  NoActiveWhenClosed s -> In b (blobs_in_order s) -> ~ In (b_id b) (s_bad s) -> ~ In (b_id b) (cut_ids [o]) ->
+  exists b', In b' (blobs_in_order (fst (step K cfg s o))) /\ bext b b'.
+Proof.
+  intros HN Hb Hnb Hnc. destruct (s_open s) eqn:EO.
+  - apply (proj1 (step_good s o (fun _ _ => EO) (fun _ _ _ => EO))), Hb.
+  - assert (EB : blobs_in_order s = closed_blobs s).
+    { rewrite bio_eq, (HN EO). cbn [oa]. rewrite app_nil_r. reflexivity. }
+    assert (HG : (forall l, o <> OOpen l) -> (forall id k, o <> OCut id k) ->
+                 exists b', In b' (blobs_in_order (fst (step K cfg s o))) /\ bext b b').
+    { intros H1 H2. apply (proj1 (step_good s o (fun l E => False_ind _ (H1 l E)) (fun id k E => False_ind _ (H2 id k E)))), Hb. }
+    destruct o; try (apply HG; discriminate); clear HG.
+    + unfold step. cbn [needs_open andb]. rewrite EO. cbn [fst]. apply do_open_lext.
+      apply in_good_files. split; [rewrite <- EB; exact Hb|exact Hnb].
+    + unfold step. cbn [needs_open andb fst]. exists b. split; [|apply bext_refl].
+      rewrite bio_eq, active_do_cut, closed_do_cut, (HN EO). cbn [oa]. rewrite app_nil_r.
+      rewrite EB, closed_blobs_cb in Hb. destruct keep as [j|]; [|exact Hb]. rewrite EO, cb_map_opt.
+      assert (Ec : cut_blob K id j b = b).
+      { unfold cut_blob. destruct (N.eqb_spec (b_id b) id) as [E|_]; [|reflexivity].
+        exfalso. apply Hnc. cbn. left. symmetry. exact E. }
+      rewrite <- Ec. apply in_map, Hb.
+Qed.
+
+Lemma bad_step_incl s o i :
+  In i (s_bad (fst (step K cfg s o))) -> In i (s_bad s) \/ In i (cut_ids [o]).
+Proof.
+  intros Hi. destruct (touches_quar o) eqn:Ht.
+  - destruct o; try discriminate Ht; unfold step in Hi; cbn [needs_open andb fst] in Hi.
+    + destruct (s_open s); cbn [fst] in Hi; [left; exact Hi|].
+      rewrite (proj2 (proj2 (do_open_quar K _ _ _ _ _ _))) in Hi. destruct Hi.
+    + unfold do_cut in Hi. destruct (s_open s); [left; exact Hi|]. destruct keep as [j|]; [left; exact Hi|].
+      destruct (existsb (fun b => b_id b =? id) (closed_blobs s)); [|left; exact Hi].
+      cbn [upd_bad s_bad] in Hi. unfold add_bad in Hi. destruct (existsb (N.eqb id) (s_bad s)); [left; exact Hi|].
+      apply in_app_or in Hi. destruct Hi as [Hi|[<-|[]]]; [left; exact Hi|right; left; reflexivity].
+  - pose proof (qf_step K cfg s o Ht) as Q. apply qf_inv in Q. destruct Q as (_ & Q & _). rewrite Q in Hi. left. exact Hi.
+Qed.
+
+Lemma run_lext_uncut ops : forall s b,
+  NoActiveWhenClosed s -> In b (blobs_in_order s) -> ~ In (b_id b) (s_bad s) -> ~ In (b_id b) (cut_ids ops) ->
+  exists b', In b' (blobs_in_order (fst (run K cfg s ops))) /\ bext b b'.
+Proof.
+  induction ops as [|o ops IH]; intros s b HN Hb Hnb Hnc; cbn [run]; [exists b; split; [exact Hb|apply bext_refl]|].
+  rewrite cut_ids_cons in Hnc.
+  assert (Hnc1 : ~ In (b_id b) (cut_ids [o])) by (intros H; apply Hnc, in_or_app; left; exact H).
+  assert (Hnc2 : ~ In (b_id b) (cut_ids ops)) by (intros H; apply Hnc, in_or_app; right; exact H).
+  destruct (step_lext_uncut s o b HN Hb Hnb Hnc1) as (b1 & Hb1 & E1).
+  pose proof (step_q_NoActiveWhenClosed s o HN) as H2.
+  pose proof (bad_step_incl s o (b_id b)) as HBI.
+  unfold step_q in *. destruct (step K cfg s o) as [s' x]. cbn [fst] in *.
+  destruct (proj1 (good_quiesce s') b1 Hb1) as (b2 & Hb2 & E2).
+  pose proof (bext_trans _ _ _ E1 E2) as E12.
+  assert (Hnb2 : ~ In (b_id b2) (s_bad (quiesce K s'))).
+  { rewrite (proj1 E12), bad_quiesce. intros H. destruct (HBI H) as [H'|H']; [exact (Hnb H')|exact (Hnc1 H')]. }
+  assert (Hnc3 : ~ In (b_id b2) (cut_ids ops)) by (rewrite (proj1 E12); exact Hnc2).
+  destruct (IH (quiesce K s') b2 H2 Hb2 Hnb2 Hnc3) as (b3 & Hb3 & E3).
+  destruct (run K cfg (quiesce K s') ops) as [s'' xs]. cbn [fst] in *.
+  exists b3. split; [exact Hb3|apply (bext_trans _ _ _ E12 E3)].
 Qed.
 
 (* ================= the theorems ================= *)
@@ -413,32 +501,45 @@ Qed.
       Added hypothesis: NoActiveWhenClosed s (see the header; it is necessary, see
       append_only_needs_NoActiveWhenClosed below). *)
 Theorem step_append_only : forall s o b,
-  NoActiveWhenClosed s ->
+  NoActiveWhenClosed s -> is_cut o = false -> s_bad s = [] ->
   In b (blobs_in_order s) ->
   exists b', In b' (blobs_in_order (fst (step_q K cfg s o))) /\ b_id b' = b_id b /\ prefix_of (b_recs b) (b_recs b').
 Proof.
-  intros s o b HN Hb. destruct (step_q_lext s o HN b Hb) as (b' & Hin & Hid & Hp).
+  intros s o b HN Hc HB Hb. destruct (step_q_lext s o HN Hc HB b Hb) as (b' & Hin & Hid & Hp).
   exists b'. split; [exact Hin|]. split; assumption.
 Qed.
 
 (* 2. lifted to every history; NoActiveWhenClosed holds of init_storage (init_NoActiveWhenClosed) and is
       preserved by every operation (run_NoActiveWhenClosed) *)
 Theorem run_append_only : forall ops s b,
-  NoActiveWhenClosed s ->
+  NoActiveWhenClosed s -> no_cut ops -> s_bad s = [] ->
   In b (blobs_in_order s) ->
   exists b', In b' (blobs_in_order (fst (run K cfg s ops))) /\ b_id b' = b_id b /\ prefix_of (b_recs b) (b_recs b').
 Proof.
-  intros ops s b HN Hb. destruct (run_lext ops s HN b Hb) as (b' & Hin & Hid & Hp).
+  intros ops s b HN Hc HB Hb. destruct (run_lext ops s HN Hc HB b Hb) as (b' & Hin & Hid & Hp).
+  exists b'. split; [exact Hin|]. split; assumption.
+Qed.
+
+(* 2b. with crash damage anywhere in the history: a blob whose file no crash touched -- not cut by this history, not
+       left unreadable by an earlier one -- still exists with the same id, its old records a prefix of the new ones.
+       (A blob file that WAS cut: CrashProofs.cut_boundary_restart / cut_inside_quarantines.) *)
+Theorem run_append_only_uncut : forall ops s b,
+  NoActiveWhenClosed s ->
+  In b (blobs_in_order s) -> ~ In (b_id b) (s_bad s) -> ~ In (b_id b) (cut_ids ops) ->
+  exists b', In b' (blobs_in_order (fst (run K cfg s ops))) /\ b_id b' = b_id b /\ prefix_of (b_recs b) (b_recs b').
+Proof.
+  intros ops s b HN Hb Hnb Hnc. destruct (run_lext_uncut ops s b HN Hb Hnb Hnc) as (b' & Hin & Hid & Hp).
   exists b'. split; [exact Hin|]. split; assumption.
 Qed.
 
 (* between any two points of a history that starts in the initial state *)
 Corollary history_append_only : forall ops1 ops2 b,
+  no_cut ops2 -> s_bad (fst (run K cfg init_storage ops1)) = [] ->
   In b (blobs_in_order (fst (run K cfg init_storage ops1))) ->
   exists b', In b' (blobs_in_order (fst (run K cfg (fst (run K cfg init_storage ops1)) ops2))) /\
              b_id b' = b_id b /\ prefix_of (b_recs b) (b_recs b').
 Proof.
-  intros ops1 ops2 b Hb. apply run_append_only; [|exact Hb].
+  intros ops1 ops2 b Hc HB Hb. apply run_append_only; [|exact Hc|exact HB|exact Hb].
   apply run_NoActiveWhenClosed, init_NoActiveWhenClosed.
 Qed.
 
@@ -476,22 +577,22 @@ Proof. intros rs rs' [t ->]. apply blob_bytes_prefix. Qed.
 
 (* 1 + 3 and 2 + 3: the old blob file is a byte prefix of the new one *)
 Corollary step_file_append_only : forall s o b,
-  NoActiveWhenClosed s ->
+  NoActiveWhenClosed s -> is_cut o = false -> s_bad s = [] ->
   In b (blobs_in_order s) ->
   exists b', In b' (blobs_in_order (fst (step_q K cfg s o))) /\ b_id b' = b_id b /\
              prefix_of (blob_file_bytes K (b_recs b)) (blob_file_bytes K (b_recs b')).
 Proof.
-  intros s o b HN Hb. destruct (step_append_only s o b HN Hb) as (b' & Hin & Hid & Hp).
+  intros s o b HN Hc HB Hb. destruct (step_append_only s o b HN Hc HB Hb) as (b' & Hin & Hid & Hp).
   exists b'. split; [exact Hin|]. split; [exact Hid|apply recs_prefix_bytes_prefix, Hp].
 Qed.
 
 Corollary run_file_append_only : forall ops s b,
-  NoActiveWhenClosed s ->
+  NoActiveWhenClosed s -> no_cut ops -> s_bad s = [] ->
   In b (blobs_in_order s) ->
   exists b', In b' (blobs_in_order (fst (run K cfg s ops))) /\ b_id b' = b_id b /\
              prefix_of (blob_file_bytes K (b_recs b)) (blob_file_bytes K (b_recs b')).
 Proof.
-  intros ops s b HN Hb. destruct (run_append_only ops s b HN Hb) as (b' & Hin & Hid & Hp).
+  intros ops s b HN Hc HB Hb. destruct (run_append_only ops s b HN Hc HB Hb) as (b' & Hin & Hid & Hp).
   exists b'. split; [exact Hin|]. split; [exact Hid|apply recs_prefix_bytes_prefix, Hp].
 Qed.
 
@@ -532,7 +633,7 @@ Theorem new_blob_id_above : forall s o b',
   (exists b, In b (blobs_in_order s) /\ b_id b = b_id b') \/
   (forall b, In b (blobs_in_order s) -> b_id b < b_id b').
 Proof.
-  intros s o b' [_ HI] EO Hin. destruct (step_q_good s o EO) as (_ & _ & HF).
+  intros s o b' (_ & HI & _) EO Hin. destruct (step_q_good s o EO) as (_ & _ & HF).
   destruct (HF b' Hin) as [H|H]; [left; exact H|]. right.
   intros b Hb. specialize (HI EO b Hb). lia.
 Qed.
@@ -544,7 +645,7 @@ Proof. intros s o EO. destruct (step_q_good s o EO) as (_ & H & _). exact H. Qed
 (* why 5 is stated for an open storage: IdsOk does not constrain s_next of a closed storage *)
 Definition cex_next : storage :=
   {| s_active := None; s_closed := []; s_next := 5; s_corrupted := 0; s_alive := false;
-     s_dump_req := false; s_aged := false; s_open := false; s_f2 := false |}.
+     s_dump_req := false; s_aged := false; s_open := false; s_f2 := false; s_bad := []; s_quar := [] |}.
 
 Lemma new_blob_id_fresh_needs_open :
   IdsOk cex_next /\ NoActiveWhenClosed cex_next /\ BlobsOk K cex_next /\
@@ -552,7 +653,8 @@ Lemma new_blob_id_fresh_needs_open :
              (forall b, In b (blobs_in_order cex_next) -> b_id b <> b_id b') /\
              ~ s_next cex_next <= b_id b'.
 Proof.
-  split; [split; [exact I|intros Ho; discriminate Ho]|].
+  split; [split; [exact I|split; [intros Ho; discriminate Ho|]]|].
+  { split; [intros Ho; discriminate Ho|]. split; [intros b []|]. split; reflexivity. }
   split; [intros _; reflexivity|].
   split; [split; [intros b []|intros b Hb; discriminate Hb]|].
   exists (new_blob 0). split; [left; reflexivity|]. split; [intros b []|].
@@ -563,6 +665,7 @@ End K.
 
 Print Assumptions step_append_only.
 Print Assumptions run_append_only.
+Print Assumptions run_append_only_uncut.
 Print Assumptions history_append_only.
 Print Assumptions append_only_needs_NoActiveWhenClosed.
 Print Assumptions blob_bytes_prefix.
